@@ -274,19 +274,74 @@ def _expand(prog, b, t):
                 return ('bundle',) + tuple(alts) + tuple(tests)
         return (x[0],) + tuple(f(y) if isinstance(y, tuple) else y for y in x[1:])
     t = f(t)
-    # inline local helper calls one level (e.g. read_number(&params["a1"], "a1"))
+    # inline local helper calls (e.g. read_number(&params["a1"], "a1")) and calls of local closures (e.g. a
+    # `|key| Self::read_number(&params[key], key)`), arguments and captured values substituted, up to three levels deep
     out = [t]
+    work = [(t, 0)]
 
-    def g(x):
-        if x[0] == 'call' and x[1] in prog.bodies and not cname(x[1]).endswith('}'):
+    def g_at(depth):
+        def g(x):
+            if x[0] != 'call' or x[1] not in prog.bodies or depth >= 3:
+                return
             cb = prog.bodies[x[1]]
+            if cb.kind == 'Closure':
+                env = strip(x[2]) if len(x) > 2 else None
+                args = strip(x[3]) if len(x) > 3 else None
+                if not (isinstance(env, tuple) and env[0] == 'agg' and isinstance(args, tuple) and args[0] == 'agg'):
+                    return
+                for rt, d, rb in cb.return_values():
+                    y = _subst_closure(cb, rt, env[2:], args[2:])
+                    out.append(y)
+                    work.append((y, depth + 1))
+                return
             for rt, d, rb in cb.return_values():
-                out.append(_subst_params(rt, x[2:]))
+                y = _subst_params(rt, x[2:])
+                out.append(y)
+                work.append((y, depth + 1))
             for cl in util.closure_bodies(prog, cb.path):
                 for rt, d, rb in cl.return_values():
                     out.append(rt)
-    mir.walk(t, g)
+        return g
+    while work:
+        y, depth = work.pop()
+        mir.walk(y, g_at(depth))
     return ('bundle',) + tuple(out)
+
+
+def _upvar_index(cb):
+    """{captured name: position} of a closure body, from the field projections on its environment parameter."""
+    idx = {}
+
+    def walk(x):
+        if isinstance(x, dict):
+            if x.get('local') == 1 and isinstance(x.get('proj'), list):
+                for e in x['proj']:
+                    if e.get('k') == 'field':
+                        idx.setdefault(e['name'], e['i'])
+                        break
+            for v in x.values():
+                if isinstance(v, (dict, list)):
+                    walk(v)
+        elif isinstance(x, list):
+            for v in x:
+                walk(v)
+    walk(cb.raw.get('blocks', []))
+    return idx
+
+
+def _subst_closure(cb, t, caps, args):
+    """closure return term with its parameters replaced by the call's arguments and its captures by the captured values"""
+    up = _upvar_index(cb)
+
+    def f(x):
+        if not isinstance(x, tuple):
+            return x
+        if x[0] == 'param' and x[1] >= 2 and x[1] - 2 < len(args):
+            return args[x[1] - 2]
+        if x[0] == 'fld' and util.is_param(x[1], 1) and x[2] in up and up[x[2]] < len(caps):
+            return caps[up[x[2]]]
+        return (x[0],) + tuple(f(y) if isinstance(y, tuple) else y for y in x[1:])
+    return f(t)
 
 
 def _subst_params(t, args):
@@ -379,8 +434,16 @@ def _offsets(ctx, prog, wt, rd):
     ctx.check(conv_paths >= 1 and plain_paths >= 1 and not bad_paths, 'R19.2', 'offsets/plain-radians', pd.where(0), pd.path,
               'deg(x) must be converted to radians and a plain number must be taken as radians (the documented format mixes `0.0` and `deg(-90.0)`): ' + '; '.join(bad_paths),
               found='converting paths=%d plain paths=%d other=%s' % (conv_paths, plain_paths, bad_paths), detail='deg(..) -> to_radians; plain -> as is')
+    # the per-entry reader: closures of the array reader, or a function it maps over the entries / calls with an entry
+    item_readers = list(util.closure_bodies(prog, ro.path))
+    for c in [ro] + list(item_readers):
+        for f in list(c.fn_refs()) + [t['callee'].get('resolved') for _, t in c.calls() if t['callee'].get('local')]:
+            fb = prog.bodies.get(f)
+            if fb is not None and fb is not pd and fb not in item_readers and fb is not ro and any('Yaml' in x for x in util.sig(fb)[1:]):
+                item_readers.append(fb)
+                ctx.fn(fb)
     # the Real variant of an offset entry must not pass through a degree conversion either
-    for c in util.closure_bodies(prog, ro.path):
+    for c in item_readers:
         for t, d, rb in c.return_values():
             tt = strip(t)
             downs = set()
@@ -391,11 +454,7 @@ def _offsets(ctx, prog, wt, rd):
                           'a Real offset entry is a plain radian value and must be parsed as such', found=show(tt, maxdepth=5))
     # reader variants per item: String -> parse_degrees, Real -> parse, Integer -> as f64
     variants = set()
-    for c in [ro] + util.closure_bodies(prog, ro.path):
-        for blk in c.blocks:
-            t = blk['term']
-            if t['k'] == 'switch':
-                pass
+    for c in [ro] + item_readers:
         for i, j, st in c.stmts():
             for e in st['rv'].get('place', {}).get('proj', []) if st['rv']['k'] in ('use', 'ref', 'discr') and 'place' in st['rv'] else []:
                 if e['k'] == 'downcast':
@@ -510,31 +569,49 @@ def _arrays(ctx, prog):
     pads = {}
 
     def pad_and_err(b):
-        """(pads five entries to six?, length != 6 -> InvalidLength?, term of the pad value)"""
+        """(pads five entries to six?, every other length -> InvalidLength?, term of the pad value).
+        Decided by following the length: the value returned as Ok is converted from a Vec whose length is 6 on every path
+        from the last test of it (a five-entry vector having received exactly one push), and InvalidLength is returned on
+        the edge(s) of a length test that exclude 6 (and 5 when measured before the padding)."""
         pad = err = False
         padv = None
-        for bi, t in b.calls():
-            n = cname(callee_name(t))
-            grows_to_six = n == 'Vec::push' or (n == 'Vec::resize' and util.const_val(strip(b.op_term(t['args'][1], (bi, None)))) == 6)
-            if grows_to_six:
-                gs = [(strip(g), opw.truth(k)) for g, k, sw in b.guard_terms(bi)]
-                if any(isinstance(g, tuple) and g[0] == 'bin' and g[1] == 'Eq' and util.const_val(g[3]) == 5 and 'len' in show(g[2], maxdepth=3) and v is True for g, v in gs):
+        grow = [(bi, t) for bi, t in b.calls() if cname(callee_name(t)) in ('Vec::push', 'Vec::resize', 'Vec::insert', 'Vec::extend_from_slice')]
+        vecs = {util._ref_root(b, t['args'][0]) for bi, t in grow} - {None}
+        for vec in vecs:
+            tests = util.len_switches(b, vec)
+            for bi, t in grow:
+                if util._ref_root(b, t['args'][0]) != vec:
+                    continue
+                n = cname(callee_name(t))
+                if not (n == 'Vec::push' or (n == 'Vec::resize' and util.const_val(strip(b.op_term(t['args'][1], (bi, None)))) == 6)):
+                    continue
+                ls = util.lengths_reaching(b, vec, bi)
+                if ls == {5}:
                     pad = True
                     padv = strip(b.op_term(t['args'][-1], (bi, None)))
-        grow_sites = [bi for bi, t in b.calls() if cname(callee_name(t)) in ('Vec::push', 'Vec::resize', 'Vec::insert', 'Vec::extend_from_slice')]
-        for t, d, rb in b.return_values():
-            t = strip(t)
-            if isinstance(t, tuple) and t[0] == 'agg' and 'Err' in t[1] and 'InvalidLength' in show(t, maxdepth=4):
-                for g, k, sw in b.guard_terms(d[1]):
-                    g = strip(g)
-                    if isinstance(g, tuple) and g[0] == 'bin' and g[1] == 'Ne' and util.const_val(g[3]) == 6 and opw.truth(k) is True:
-                        # the length that is compared must be measured after the padding: a len() taken before a push that can
-                        # still run on the way to this test is stale (a five-entry array is padded and then rejected as 5)
+            for t, d, rb in b.return_values():
+                t = strip(t)
+                if not (isinstance(t, tuple) and t[0] == 'agg' and 'Err' in t[1] and 'InvalidLength' in show(t, maxdepth=4)):
+                    continue
+                for sw, edges in tests:
+                    other = edges.get('otherwise')
+                    kk = [key for key, tg in b.switch_edges(sw) if tg == other]
+                    if other is None or len(kk) != 1 or d[1] not in b.edge_dominated(sw, kk[0]):
+                        continue
+                    named = {k for k in edges if isinstance(k, int)}
+                    # lengths that do not end in this error: they must be exactly those that arrive as 6 at the conversion
+                    before = util.lengths_reaching(b, vec, sw)
+                    if named == {6}:
+                        # tested after the padding: the length compared must not be stale (a len() taken before a push that can
+                        # still run on the way to this test)
                         lens = _len_calls_feeding(b, sw)
                         stale = any(lt.get('target') is not None and b.reaches(lt['target'], gbi, avoid=(lbi,)) and b.reaches(gbi, sw, avoid=(lbi,))
-                                    for lbi, lt in lens for gbi in grow_sites)
+                                    for lbi, lt in lens for gbi, _ in grow)
                         if lens and not stale:
                             err = True
+                    elif named == {5, 6} and not before:
+                        # tested before the padding: 5 and 6 are the accepted lengths, the 5-arm pads (checked above)
+                        err = True
         return pad, err, padv
 
     for name, rty in (('read_offsets', 'Result<[f64; 6]'), ('read_sign_corrections', 'Result<[i8; 6]')):
